@@ -18,7 +18,8 @@ What the extraction drops or rewrites is exactly (and is echoed into the evidenc
     invariants, decreases clauses) inserted next to the unique occurrence of the anchor -- Verus erases them, the
     executable text is unchanged; only text starting with proof/assert/invariant/decreases/ensures/let ghost is accepted;
   * every `subst` pair listed in the directive (stated token substitutions, e.g. a trait call that Verus
-    does not know replaced by the equivalent core function).
+    does not know replaced by the equivalent core function); a pair written `?old=>new` is an optional renaming
+    (applied where the text mentions `old`, silently skipped where it does not -- for type renamings only).
 Nothing else of the function body is touched.  If an anchor is not found: ExtractError -> undecided."""
 import os
 import re
@@ -269,6 +270,10 @@ def splice_fn(rel, impl_sel, fn_name, opts, contract_lines, ghost_lines=()):
         body = body2
     for pair in [p for p in opts.get("subst", "").split("@@") if p]:
         a, b = pair.split("=>", 1)
+        if a.startswith("?"):
+            a = a[1:]
+            if a not in body and a not in sig:
+                continue   # optional renaming: nothing to rename in this version of the text
         if a not in body and a not in sig:
             raise ExtractError("substitution source `%s` not found in %s" % (a, fn_name))
         body = body.replace(a, b)
@@ -342,6 +347,10 @@ def splice_item(rel, prefix, opts=None):
         d.append("item `%s`: %d statement(s) starting with `%s` dropped (declared drop: event publication / tracing)" % (prefix, cnt, pre))
     for pair in [p for p in (opts or {}).get("subst", "").split("@@") if p]:
         a, b = pair.split("=>", 1)
+        if a.startswith("?"):
+            a = a[1:]
+            if a not in code:
+                continue
         if a not in code:
             raise ExtractError("substitution source `%s` not found in item %s" % (a, prefix))
         code = code.replace(a, b)
@@ -389,7 +398,7 @@ def _stmt_end(text, start, hi, else_chain=True):
 def splice_stmts(rel, impl_sel, fn_name, opts):
     """Statement-level extraction: a contiguous run of statements of one real function.
 
-      //@ splice-stmts <repo file> "<impl selector>" <fn> "from=<anchor text>" ["to=<anchor text>"] [inner=1] [subst=..] [dropstmt=..]
+      //@ splice-stmts <repo file> "<impl selector>" <fn> "from=<anchor text>" ["to=<anchor text>" | "until=<anchor text>"] [inner=1] [subst=..] [dropstmt=..]
 
     The run starts at the first occurrence of the `from` anchor inside the function body (which must be at the start of
     a statement) and ends with the statement that starts at the `to` anchor (default: the `from` statement itself).
@@ -420,10 +429,17 @@ def splice_stmts(rel, impl_sel, fn_name, opts):
         if not m2:
             raise ExtractError("anchor `%s` not found after `%s` in %s" % (opts["to"], opts["from"], what))
         last = m2.start()
-    end = _stmt_end(text, last, cb, else_chain=opts.get("else", "1") != "0")
+    if opts.get("until"):
+        # exclusive end: everything up to (not including) the statement that starts at the `until` anchor
+        m3 = find_code(text, re.escape(opts["until"]), start + 1, cb)
+        if not m3:
+            raise ExtractError("anchor `%s` not found after `%s` in %s" % (opts["until"], opts["from"], what))
+        end = m3.start()
+    else:
+        end = _stmt_end(text, last, cb, else_chain=opts.get("else", "1") != "0")
     raw = text[start:end]
     d = ["%s: statement-level extraction -- only the statements from `%s`%s are extracted; the rest of the function body is NOT verified by this job; attributes and comments dropped"
-         % (what, opts["from"], (" to `%s`" % opts["to"]) if opts.get("to") else "")]
+         % (what, opts["from"], (" to `%s`" % opts["to"]) if opts.get("to") else ((" up to (excluding) `%s`" % opts["until"]) if opts.get("until") else ""))]
     if opts.get("inner"):
         o = find_code(raw, r"\{")
         if not o:
@@ -440,6 +456,10 @@ def splice_stmts(rel, impl_sel, fn_name, opts):
         d.append("%s: %d statement(s) starting with `%s` dropped (declared drop: event publication / tracing)" % (what, cnt, pre))
     for pair in [p for p in opts.get("subst", "").split("@@") if p]:
         a, b = pair.split("=>", 1)
+        if a.startswith("?"):
+            a = a[1:]
+            if a not in code:
+                continue
         if a not in code:
             raise ExtractError("substitution source `%s` not found in statements of %s" % (a, what))
         code = code.replace(a, b)
